@@ -73,6 +73,8 @@ Embed(struct, ly) ==
     [] struct = "sig"     -> [kind |-> "sig", m |-> [P |-> ly.P, U |-> ly.U, sig |-> SigB]]
     [] struct = "sign"    -> [kind |-> "sign", m |-> [P |-> ly.P, U |-> ly.U, payload |-> Pay, sigs |-> <<CsObj>>]]
     [] struct = "signsig" -> [kind |-> "sign", m |-> [P |-> <<>>, U |-> <<>>, payload |-> Pay, sigs |-> <<CsObj, [P |-> ly.P, U |-> ly.U, sig |-> SigB]>>]]
+    [] struct = "nested2" -> [kind |-> "sig", m |-> [P |-> <<>>, U |-> <<<<Sp("int64", 11), [t |-> "csigs", xs |-> <<CsObj,
+                                 [P |-> <<>>, U |-> <<<<Sp("int64", 7), [t |-> "csig", x |-> [P |-> ly.P, U |-> ly.U, sig |-> SigB]]>>>>, sig |-> SigB]>>]>>>>, sig |-> SigB]]
     [] struct = "nested"  -> [kind |-> "sign1", m |-> [P |-> <<>>, U |-> <<<<Sp("int64", 7), [t |-> "csig", x |-> [P |-> ly.P, U |-> ly.U, sig |-> SigB]]>>>>,
                                                          payload |-> Pay, sig |-> SigB]]
 
